@@ -248,6 +248,7 @@ def run(gen, scenario, moment=None, reinit=False, idle=8000):
     async def main():
         at = env.at
         init_task = loop.create_task(at.init())
+        init_task.add_done_callback(lambda t: obs.__setitem__("init_done_at", ticks(loop.time())))
         trigger = loop.create_future()
         if scenario.get("refuse_until"):
             loop.call_later(scenario["refuse_until"] * TICK, lambda: setattr(env.net, "mode", "accept"))
@@ -271,7 +272,8 @@ def run(gen, scenario, moment=None, reinit=False, idle=8000):
             await asyncio.sleep(scenario.get("horizon", 200) * TICK)
             obs["baseline_events"] = len(env.events)
             obs["init_done"] = init_task.done()
-            obs["init_result"] = init_task.result() if init_task.done() and not init_task.cancelled() else None
+            obs["init_raised"] = (type(init_task.exception()).__name__ if init_task.done() and not init_task.cancelled() and init_task.exception() else None)
+            obs["init_result"] = init_task.result() if init_task.done() and not init_task.cancelled() and not init_task.exception() else None
             obs["view"] = view_at(at)
             obs["event_log"] = list(env.events)
             obs["hb_events"] = list(env.hb_events) + [("stop", ticks(loop.time()))]
